@@ -648,6 +648,19 @@ func BuildDoc(r *kit.Rand, cfg DocConfig) (*Doc, error) {
 				bad[r.Intn(n)] = pdf.NewStream(pdf.Dict{}, []byte("x"))
 				expectRefused("WriteCompressed-stream", w.WriteCompressed(refs, bad...))
 			}
+			if cfg.WithRejected && n >= 2 && len(d.Objs) > 0 && !ownNumbers && cfg.Version >= pdf.V1_5 && !cfg.HumanReadable && r.Chance(1, 3) {
+				// the last reference has been written already: refused, and the
+				// references before it stay what they were (unwritten)
+				early := make([]pdf.Reference, 0, n)
+				for j := 0; j < n-1; j++ {
+					early = append(early, alloc())
+				}
+				d.Unwritten = append(d.Unwritten, early...)
+				early = append(early, d.Objs[r.Intn(len(d.Objs))].Ref)
+				if early[n-1].Generation() == 0 {
+					expectRefused("WriteCompressed-duplicate", w.WriteCompressed(early, objs...))
+				}
+			}
 			if err := w.WriteCompressed(refs, objs...); err != nil {
 				return d, fmt.Errorf("%s: WriteCompressed(%d objects): %w", cfg.String(), n, err)
 			}
